@@ -133,6 +133,13 @@ func (d *decoder) whole(s []byte) ([]NEv, int, any) { return d.chunks([][]byte{s
 // EnableFocus would); they persist across resets.
 func (d *decoder) modes(mouse tcell.MouseFlags, paste, focus bool) { d.p.SetModes(mouse, paste, focus) }
 
+// modeSet selects one of eight combinations of application modes by index: decoding must
+// not depend on what the application has switched on.
+func (d *decoder) modeSet(i int) {
+	i &= 7
+	d.modes([]tcell.MouseFlags{0, tcell.MouseButtonEvents, tcell.MouseDragEvents | tcell.MouseButtonEvents, tcell.MouseMotionEvents}[i%4], i&4 != 0, i&2 != 0 || i == 7)
+}
+
 // decodeChunks / decodeWhole use a fresh parser (slow: building the key table
 // dominates); kept for one-off decodes.
 func decodeChunks(ti *terminfo.Terminfo, charset string, w, h int, chunks [][]byte) (evs []NEv, left int, pan any) {
